@@ -614,6 +614,12 @@ func C08(tier string) *engine.Report {
 	sp := smSpec(depth)
 	sp.Until = deadline
 	tot.Add(sp.Name, sp.Run(), rep)
+	// every status code a peer's Close can carry, from the open state (E1, no deviations: a flat table)
+	cres := c08CloseCodeDFS(tier).Run()
+	for _, v := range cres.Violations {
+		rep.Add(v)
+	}
+	rep.Coverage["close_code_table"] = map[string]any{"config": cres.Name, "sessions": cres.Executions, "codes": 1 << 16, "read_apis": 4, "finished": cres.Exhaustive, "violations": len(cres.Violations)}
 	tot.Fill(rep, fmt.Sprintf("BFS to depth %d over 13 peer events and 10 local calls from the initial state of a real websocket.Stream on a scripted transport, in lock-step with an RFC 6455 control-plane model; "+
 		"each distinct key is expanded once, so every event is applied in every reachable abstract state; every transition executes the real calls and compares outbound wire, call result, callbacks, Pending() and State()", depth))
 	rep.Coverage["depth_bound"] = depth
@@ -621,6 +627,9 @@ func C08(tier string) *engine.Report {
 }
 
 func C08Replay(v engine.Violation, log func(string)) *engine.Violation {
+	if strings.HasPrefix(v.Config, "close-codes@") {
+		return c08CloseCodeDFS(v.Config[len("close-codes@"):]).ReplayChoices(v.Choices)
+	}
 	var d int
 	fmt.Sscanf(v.Config, "depth=%d", &d)
 	return smSpec(d).Replay(v.Path, log)
